@@ -218,6 +218,11 @@ def run_driver_case(case, script=None):
                        "tol_res": case["tol_res"], "alpha": case["alpha0"]}
     net["_active_pit"] = {"node": np.full((case["n_node"], node_cols), 777.0),
                           "branch": np.full((case["n_branch"], branch_cols), 777.0)}
+    # full pits + all-active lookups: a driver that undoes a rejected step in net["_pit"] (through the active
+    # lookups) instead of net["_active_pit"] is observed just the same
+    net["_pit"] = {"node": np.full((case["n_node"], node_cols), 777.0), "branch": np.full((case["n_branch"], branch_cols), 777.0)}
+    net["_lookups"] = {"%s_active_%s" % (pt, m): np.ones(case["n_node"] if pt == "node" else case["n_branch"], dtype=bool)
+                       for pt in ("node", "branch") for m in ("hydraulics", "heat_transfer")}
     net.converged = bool(case["conv0"])
     auto = case["method"] == "automatic"
     names = [v[0] for v in case["vars"]]
@@ -240,9 +245,17 @@ def run_driver_case(case, script=None):
         cs = []
         for i in range(n_rest):
             arr, rows, col = loc(i)
-            cur = arr[rows, col]
-            en, eo = _same(cur, pairs[i][0]), _same(cur, pairs[i][1])
-            cs.append(2 if (en and eo) else 0 if en else 1 if eo else 3)
+            full = net["_pit"][case["vars"][i][1]]
+            cur, cur_full = arr[rows, col], full[rows, col]
+            new_, old_ = pairs[i][0], pairs[i][1]
+            if _same(new_, old_) and _same(cur, new_) and _same(cur_full, new_):
+                cs.append(2)
+            elif _same(cur, new_) and _same(cur_full, new_):
+                cs.append(0)
+            elif (_same(cur, old_) and _same(cur_full, new_)) or (_same(cur_full, old_) and _same(cur, new_)):
+                cs.append(1)
+            else:
+                cs.append(3)
         codes.append(cs)
 
     def funct(net_):
@@ -258,6 +271,7 @@ def run_driver_case(case, script=None):
             if auto and i < len(names):
                 arr, rows, col = loc(i)
                 arr[rows, col] = np.array(new, float)
+                net["_pit"][case["vars"][i][1]][rows, col] = np.array(new, float)
                 out += [arr[rows, col], np.array(old, float)]
                 filtered.append(filt_rows if case["vars"][i][2] else None)
             else:
